@@ -8,6 +8,7 @@ import (
 	"strings"
 	"sync"
 	"testing"
+	"testing/synctest"
 	"time"
 
 	"github.com/aptpod/iscp-go/iscp"
@@ -595,4 +596,291 @@ func runCloseWhileWaiting(waiters, ackWaiters, receivers int, delay time.Duratio
 	r := vrun.Hold(fmt.Sprintf("%d|%d|%d", waiters, ackWaiters, receivers), waiters > 0)
 	r.Stat("callers_released_by_close", int64(n))
 	return r
+}
+
+// TestC16AbandonedWaiters: callers that give up after the ack (their context ends before the reply) and whose replies
+// arrive late - while later callers are waiting for theirs. A later caller must get its own reply, never a late one.
+func TestC16AbandonedWaiters(t *testing.T) {
+	e := vrun.LoadEnv()
+	meta := vrun.Meta{Property: "C16", Workload: "TestC16AbandonedWaiters", Total: e.Pick(40, 2000),
+		Rule:        "1-6 callers of SendCallAndWaitReplayCall whose context allows 15 ms; the broker acknowledges them at once and answers after 60 ms (too late); 1-6 further callers start 25-40 ms in, are acknowledged at once and answered after 110 ms, i.e. after the late replies have arrived; in half of the cases the early callers repeat this 2-4 times. Oracle: every early caller ends with its context's error and without a reply; every later caller gets the reply built from its own call (request-call id and payload tag). non-trivial = at least one early caller gave up and one later caller was served; distinct = scenario tuple",
+		Assumptions: []string{"real time with generous margins (15 ms context vs 60 ms reply); a case in which an early caller was served after all (machine stalled for > 45 ms) is inconclusive"}}
+	vrun.Loop(t, meta, 0, func(c *vrun.Case) vrun.Result {
+		r := c.Rng
+		early, late, rounds := 1+r.Intn(6), 1+r.Intn(6), 1
+		if r.Intn(2) == 0 {
+			rounds = 2 + r.Intn(3)
+		}
+		desc := map[string]any{"early_callers": early, "late_callers": late, "rounds": rounds}
+		var res vrun.Result
+		ok, dump := vrun.Watchdog(120*time.Second, func() { res = runAbandoned(early, late, rounds) })
+		if !ok {
+			res = vrun.WatchdogVerdict("the case never finished")
+			if res.Verdict == vrun.Inconclusive {
+				res.Witness = map[string]any{"dump_head": dump[:min(len(dump), 5000)]}
+			}
+		}
+		res.Desc = desc
+		return res
+	})
+}
+
+func runAbandoned(early, late, rounds int) vrun.Result {
+	w := world.New()
+	defer w.Close()
+	w.B.OnMsg = func(lc *broker.LinkCtx, m message.Message, unrel bool) bool {
+		call, ok := m.(*message.UpstreamCall)
+		if !ok {
+			return false
+		}
+		lc.Send(&message.UpstreamCallAck{CallID: call.CallID, ResultCode: message.ResultCodeSucceeded, ResultString: "OK"})
+		d := 110 * time.Millisecond
+		if strings.HasPrefix(string(call.Payload), "early") {
+			d = 60 * time.Millisecond
+		}
+		rep := &message.DownstreamCall{CallID: "r-" + call.CallID, RequestCallID: call.CallID, SourceNodeID: "peer", Name: "reply", Type: "t", Payload: append([]byte("reply:"), call.Payload...)}
+		go func() { time.Sleep(d); lc.Send(rep) }()
+		return true
+	}
+	w.Start()
+	conn, err := w.Connect(iscp.WithConnPingInterval(time.Hour))
+	if err != nil {
+		return vrun.Inconcl("connect: " + err.Error())
+	}
+	defer conn.Close(context.Background())
+	// the application drains the reply inbox (it is not the subject here)
+	dctx, dcancel := context.WithCancel(context.Background())
+	defer dcancel()
+	go func() {
+		for {
+			if _, err := conn.ReceiveReplyCall(dctx); err != nil {
+				return
+			}
+		}
+	}()
+	var mu sync.Mutex
+	var bad *vrun.Result
+	gaveUp, served, earlyServed := 0, 0, 0
+	for round := 0; round < rounds && bad == nil; round++ {
+		var wg sync.WaitGroup
+		for i := 0; i < early; i++ {
+			wg.Add(1)
+			go func(i int) {
+				defer wg.Done()
+				tag := fmt.Sprintf("early-%d-%d", round, i)
+				ctx, cancel := context.WithTimeout(context.Background(), 15*time.Millisecond)
+				rep, err := conn.SendCallAndWaitReplayCall(ctx, &iscp.UpstreamCall{DestinationNodeID: "peer", Name: "wait-reply", Type: "t", Payload: []byte(tag)})
+				cancel()
+				mu.Lock()
+				defer mu.Unlock()
+				if err == nil && rep != nil {
+					earlyServed++
+					if string(rep.Payload) != "reply:"+tag && bad == nil {
+						v := vrun.Violation("SendCallAndWaitReplayCall returned a reply that belongs to another call", "waiter-got-foreign-reply:early", map[string]any{"tag": tag, "reply": string(rep.Payload)})
+						bad = &v
+					}
+					return
+				}
+				gaveUp++
+			}(i)
+		}
+		time.Sleep(time.Duration(25+round%3*5) * time.Millisecond)
+		for i := 0; i < late; i++ {
+			wg.Add(1)
+			go func(i int) {
+				defer wg.Done()
+				tag := fmt.Sprintf("late-%d-%d", round, i)
+				ctx, cancel := context.WithTimeout(context.Background(), 20*time.Second)
+				rep, err := conn.SendCallAndWaitReplayCall(ctx, &iscp.UpstreamCall{DestinationNodeID: "peer", Name: "wait-reply", Type: "t", Payload: []byte(tag)})
+				cancel()
+				mu.Lock()
+				defer mu.Unlock()
+				switch {
+				case err != nil:
+					if bad == nil {
+						v := vrun.Violation("a caller did not get its reply although the broker acknowledged and answered its call", "waiter-got-no-reply:after-abandoned-waiters", map[string]any{"tag": tag, "error": err.Error()})
+						bad = &v
+					}
+				case string(rep.Payload) != "reply:"+tag:
+					if bad == nil {
+						v := vrun.Violation("SendCallAndWaitReplayCall returned a reply that belongs to another call (a late reply for a caller that had given up)", "waiter-got-foreign-reply", map[string]any{"tag": tag, "reply": string(rep.Payload), "reply_request_call_id": rep.RequestCallID})
+						bad = &v
+					}
+				default:
+					served++
+				}
+			}(i)
+		}
+		wg.Wait()
+		time.Sleep(5 * time.Millisecond)
+	}
+	if bad != nil {
+		return *bad
+	}
+	if earlyServed > 0 {
+		return vrun.Inconcl(fmt.Sprintf("%d early callers were served after all (the machine stalled): the schedule under test did not happen", earlyServed))
+	}
+	res := vrun.Hold(fmt.Sprintf("%d|%d|%d", early, late, rounds), gaveUp > 0 && served > 0)
+	res.Stat("callers_that_gave_up_after_the_ack", int64(gaveUp))
+	res.Stat("later_callers_served", int64(served))
+	return res
+}
+
+// TestC16ReconnectBetweenCallAndAck (virtual time): the link dies after a call was written and before its ack arrives; the
+// library reconnects and the call is sent again: every caller gets the ack (and reply) of its own call.
+func TestC16ReconnectBetweenCallAndAck(t *testing.T) {
+	e := vrun.LoadEnv()
+	modes := []memnet.Mode{memnet.Sever, memnet.WFail, memnet.REOF, memnet.Blackhole}
+	meta := vrun.Meta{Property: "C16", Workload: "TestC16ReconnectBetweenCallAndAck", Total: e.Pick(96, 4000),
+		Rule:        "virtual time: 1-4 concurrent callers (SendCall / SendReplyCall / SendCallAndWaitReplayCall by caller index) with 30 s contexts; the broker lets the link die (sever / write-fail / read-EOF / blackhole) when the k-th call (k=1..3) arrives on link 1 - before acknowledging it, or right after writing the ack into the dying link; calls on later links are acknowledged and answered. Keepalive 200 ms + 200 ms. Oracle: every caller returns without error, the ack it reports is for the call carrying its own tag on the link where it was finally acknowledged, call-and-wait callers get the reply built from their own call. non-trivial = the link died with at least one call unacknowledged and a second link was dialled; distinct = scenario tuple",
+		Assumptions: []string{"bounded progress: the callers' contexts allow 30 virtual seconds, recovery takes less than one"}}
+	vrun.Loop(t, meta, 0, func(c *vrun.Case) vrun.Result {
+		r := c.Rng
+		callers, k, mode, ackFirst := 1+r.Intn(4), 1+r.Intn(3), modes[r.Intn(4)], r.Intn(2) == 0
+		if k > callers {
+			k = callers
+		}
+		desc := map[string]any{"callers": callers, "link_dies_at_call_no": k, "mode": mode.String(), "ack_written_into_the_dying_link": ackFirst}
+		var res vrun.Result
+		ok, dump := vrun.Watchdog(90*time.Second, func() {
+			func() {
+				defer func() {
+					if p := recover(); p != nil {
+						if res.Verdict == "" {
+							res = vrun.Inconcl(fmt.Sprint("bubble aborted: ", p))
+						} else if res.Note == "" {
+							res.Note = fmt.Sprint("bubble end: ", p)
+						}
+					}
+				}()
+				synctest.Test(c.T, func(t *testing.T) { res = runCallReconnect(callers, k, mode, ackFirst) })
+			}()
+		})
+		if !ok {
+			res = vrun.Inconcl("real-time watchdog fired (bubble stalled)")
+			res.Witness = map[string]any{"dump_head": dump[:min(len(dump), 4000)]}
+		}
+		res.Desc = desc
+		return res
+	})
+}
+
+func runCallReconnect(callers, k int, mode memnet.Mode, ackFirst bool) vrun.Result {
+	w := world.New()
+	var mu sync.Mutex
+	seen := 0
+	pendingAtFailure := 0
+	ackedOn := map[string]int{} // call id -> link
+	tagOf := map[string]string{}
+	w.B.OnMsg = func(lc *broker.LinkCtx, m message.Message, unrel bool) bool {
+		call, ok := m.(*message.UpstreamCall)
+		if !ok {
+			return false
+		}
+		mu.Lock()
+		tagOf[call.CallID] = string(call.Payload)
+		if lc.L.ID == 1 {
+			seen++
+			if seen == k {
+				pendingAtFailure = 1
+				mu.Unlock()
+				if ackFirst {
+					lc.L.Fail(mode) // the ack below goes into a link that is already dead
+					lc.Send(&message.UpstreamCallAck{CallID: call.CallID, ResultCode: message.ResultCodeSucceeded, ResultString: "OK"})
+				} else {
+					lc.L.Fail(mode)
+				}
+				return true
+			}
+			if seen > k {
+				mu.Unlock()
+				return true // arrives on the dead link
+			}
+		}
+		ackedOn[call.CallID] = lc.L.ID
+		mu.Unlock()
+		lc.Send(&message.UpstreamCallAck{CallID: call.CallID, ResultCode: message.ResultCodeSucceeded, ResultString: "OK"})
+		if call.Name == "wait-reply" {
+			lc.Send(&message.DownstreamCall{CallID: "r-" + call.CallID, RequestCallID: call.CallID, SourceNodeID: "peer", Name: "reply", Type: "t", Payload: append([]byte("reply:"), call.Payload...)})
+		}
+		return true
+	}
+	w.Start()
+	conn, err := w.Connect(iscp.WithConnPingInterval(200*time.Millisecond), iscp.WithConnPingTimeout(200*time.Millisecond))
+	if err != nil {
+		w.Close()
+		return vrun.Inconcl("connect: " + err.Error())
+	}
+	type outcome struct {
+		api, tag, id, reply, replyReq, err string
+	}
+	results := make([]outcome, callers)
+	var wg sync.WaitGroup
+	for ci := 0; ci < callers; ci++ {
+		wg.Add(1)
+		go func(ci int) {
+			defer wg.Done()
+			tag := fmt.Sprintf("caller-%d", ci)
+			o := outcome{tag: tag}
+			ctx, cancel := context.WithTimeout(context.Background(), 30*time.Second)
+			defer cancel()
+			switch ci % 3 {
+			case 0:
+				o.api = "SendCallAndWaitReplayCall"
+				rep, err := conn.SendCallAndWaitReplayCall(ctx, &iscp.UpstreamCall{DestinationNodeID: "peer", Name: "wait-reply", Type: "t", Payload: []byte(tag)})
+				if err != nil {
+					o.err = err.Error()
+				} else {
+					o.reply, o.replyReq = string(rep.Payload), rep.RequestCallID
+				}
+			case 1:
+				o.api = "SendCall"
+				id, err := conn.SendCall(ctx, &iscp.UpstreamCall{DestinationNodeID: "peer", Name: "plain", Type: "t", Payload: []byte(tag)})
+				o.id = id
+				if err != nil {
+					o.err = err.Error()
+				}
+			case 2:
+				o.api = "SendReplyCall"
+				id, err := conn.SendReplyCall(ctx, &iscp.UpstreamReplyCall{RequestCallID: "req", DestinationNodeID: "peer", Name: "replycall", Type: "t", Payload: []byte(tag)})
+				o.id = id
+				if err != nil {
+					o.err = err.Error()
+				}
+			}
+			results[ci] = o
+		}(ci)
+		time.Sleep(time.Millisecond)
+	}
+	wg.Wait()
+	links := len(w.Net.Links())
+	cctx, cc := context.WithTimeout(context.Background(), 10*time.Second)
+	conn.Close(cctx)
+	cc()
+	w.Close()
+	time.Sleep(time.Second)
+	synctest.Wait()
+	mu.Lock()
+	defer mu.Unlock()
+	for _, o := range results {
+		if o.err != "" {
+			return vrun.Violation(o.api+" failed although the connection recovered within its context: a reconnect between call and ack must be survived", "call-failed-across-reconnect:"+o.api,
+				map[string]any{"caller": o.tag, "error": o.err, "links": links})
+		}
+		if o.api == "SendCallAndWaitReplayCall" {
+			if o.reply != "reply:"+o.tag || tagOf[o.replyReq] != o.tag {
+				return vrun.Violation("SendCallAndWaitReplayCall returned a reply that does not belong to its call", "foreign-reply-across-reconnect", map[string]any{"caller": o.tag, "reply": o.reply})
+			}
+			continue
+		}
+		if tagOf[o.id] != o.tag {
+			return vrun.Violation(o.api+" reported a call id that is not the id of the call carrying its own payload", "foreign-call-id-across-reconnect", map[string]any{"caller": o.tag, "reported_id_belongs_to": tagOf[o.id]})
+		}
+		if _, ok := ackedOn[o.id]; !ok {
+			return vrun.Violation(o.api+" returned success for a call the broker never acknowledged", "success-without-ack-across-reconnect", map[string]any{"caller": o.tag})
+		}
+	}
+	res := vrun.Hold(fmt.Sprintf("%d|%d|%s|%v", callers, k, mode, ackFirst), pendingAtFailure > 0 && links >= 2)
+	res.Stat("links", int64(links))
+	return res
 }
